@@ -20,14 +20,20 @@ import time
 PROPERTY = "C14"
 LEVEL_TEXT = ("Lean theorems over Model/Names.lean: a node name is a function of (callable __name__, statics, input names) only; for an "
               "injective hash, uniquely decodable statics, callables distinguished by __name__ and plain input names, equal names imply equal "
-              "(callable, statics, inputs) — the rendering of the input-name list is proved injective, not assumed; the statement without the "
-              "__name__ hypothesis is refuted by a witness; every modelled operation only appends to the store of live actions. Tied to the "
-              "real fluent API by re-deriving every real node name from the model's rendering and by operand snapshots.")
+              "(callable, statics, inputs) — the rendering of the input-name list is proved injective, not assumed, so the same inputs in a "
+              "different order give a different name; the statement without the __name__ hypothesis is refuted by a witness. Existing "
+              "actions: Action.transform is modelled on a heap of action objects with its in-place writes (_add_dimension, "
+              "_squeeze_dimension); for every func (new action, the receiver, any previously built action), every heap and every history "
+              "of operations no existing action object changes, the heap model agrees with the value model of C13, and re-wrapping func's "
+              "result only when it is the receiver is refuted by a witness. Tied to the real fluent API by re-deriving every real node name "
+              "from the model's rendering, by replaying look-up transforms on the heap model, and by snapshots of all existing actions.")
 LEVEL_NOTE = ("modelled, not verified: fluent.py Payload.__str__/name, Node.__init__ naming, from_source label uniqueness, Action.join/"
-              "broadcast/_combine_nodes/transform as store operations; sha256 is applied by the harness to the model's rendering (collision "
-              "freedom is the hypothesis `Function.Injective H`); Python repr is modelled for int/str/float/bool/None/list/tuple/dict only; "
-              "unique decodability of the statics' repr is a hypothesis; Python object identity is only observed by the snapshots")
-TECHNIQUE = "Lean 4 proof (string decomposition lemmas on List Char) + differential correspondence of node names + identity/coordinate snapshots around every operation"
+              "broadcast/_combine_nodes as store operations, Action.transform/_add_dimension/_squeeze_dimension as heap operations; sha256 "
+              "is applied by the harness to the model's rendering (collision freedom is the hypothesis `Function.Injective H`); Python repr "
+              "is modelled for int/str/float/bool/None/list/tuple/dict only; unique decodability of the statics' repr is a hypothesis; "
+              "Python object identity is observed by the snapshots and, for transforms that hand back existing actions, by node-object ids "
+              "compared with the heap model; the func passed to transform is one of three kinds (TFunc)")
+TECHNIQUE = "Lean 4 proof (string decomposition lemmas on List Char; write-set invariant of a heap model) + differential correspondence of node names and of heaps around look-up transforms + identity/coordinate snapshots of every existing action around every operation + rebuilds in fresh interpreters"
 LEAN_PROPS = ["EkwVerif.Props.C14"]
 LEAN_DRIVERS = ["C14"]
 RULE = ("random fluent programs as in C13 (shared sources, branches) extended with pairs of different callables of equal __name__ "
